@@ -688,7 +688,10 @@ Varable failures: {var_failed}
                 for i in range(0, len(varliststr), 16)
             ]
         else:
+            # blank separated or unpadded list: make it fixed-width before
+            # fields are appended, or the new names fuse with the last one
             oldkeys = varliststr.split()
+            varliststr = ''.join([k.ljust(16)[:16] for k in oldkeys])
         keys = [k for k in oldkeys if k in self.variables]
         newkeys = set(varkeys).difference(keys + ['ETFLAG', 'TFLAG'])
         for varkey in varkeys:
